@@ -103,6 +103,8 @@ type gateMode int
 const (
 	gateSlow gateMode = iota // closed until the peer is done and 3 ms of virtual time passed, then open for good
 	gateStep                 // one message let through per millisecond
+	gateOpen                 // the application is fast: the gate is open from the start
+	gateRace                 // decoding the 2nd message takes as long as handling the 1st: both finish at the same moment (the wait for room races with the handler's completion)
 	gateStop                 // the connection owner shuts down while the gate is still closed
 	gateProtoStop            // the application stops the mini-protocol while the sender is being held back; the connection is closed a second later
 )
@@ -185,12 +187,29 @@ func scenario(sp spec) e1lib.Scenario {
 	body := func() {
 		peer, local := rt.ConnPair("peer", "local")
 		cfg := sp.cfg
-		cfg.MessageFromCborFunc = rawFromCbor
+		// the codec is the harness's own: every call is one message the engine has taken out of
+		// its reassembly buffer and is about to admit to its receive queue (at most ONE decoded
+		// message is not admitted yet: readLoop holds it while it waits for room)
+		var decodedBytes, lastDecoded, nDecoded int
+		decodeGate := make(chan struct{})
+		cfg.MessageFromCborFunc = func(t uint, b []byte) (protocol.Message, error) {
+			m, err := rawFromCbor(t, b)
+			if m != nil && err == nil {
+				decodedBytes += len(b)
+				lastDecoded = len(b)
+				nDecoded++
+				if sp.gate == gateRace && nDecoded == 2 {
+					rt.Recv("h:decodeGate", decodeGate) // a slow decode
+				}
+			}
+			return m, err
+		}
 		gate := make(chan struct{}, len(sp.stream)+1)
 		handled := make(chan struct{}, len(sp.stream)+1)
 		// harness-side bookkeeping, written by the handler goroutine, read by the invariant
 		// while everything is parked
 		var lastEntered, enteredBytes, nHandled int
+		opened := false
 		var ep *s2lib.Endpoint
 		sendLocal := func(k int) {
 			for _, m := range sp.local[k] {
@@ -217,6 +236,14 @@ func scenario(sp spec) e1lib.Scenario {
 				if p := ep.Proto.VerifPendingRecvBytesQuiescent(); p > sp.limit+lastEntered {
 					return fmt.Sprintf("O1 pending-above-limit: the engine holds %d received unhandled bytes, limit %d, message in the handler %d", p, sp.limit, lastEntered)
 				}
+				// O5: bytes really sitting in the receive queue, measured by the harness (decoded by
+				// our codec, handler not yet entered, minus the one message that may still wait for
+				// admission) must respect the limit, whatever the engine's own counter says
+				if sp.limit > 0 && sp.bad < 0 {
+					if q := decodedBytes - enteredBytes - lastDecoded; q > sp.limit {
+						return fmt.Sprintf("O5 queued-above-limit: %d bytes of messages decoded from the wire and not yet given to the application (the last decoded message of %d bytes not counted) > limit %d", q, lastDecoded, sp.limit)
+					}
+				}
 				if sp.endless {
 					return ""
 				}
@@ -225,6 +252,10 @@ func scenario(sp spec) e1lib.Scenario {
 				}
 				return ""
 			})
+		}
+		if sp.gate == gateOpen {
+			opened = true
+			rt.Close("h:preopen", gate)
 		}
 		ep.Start()
 		sendLocal(0)
@@ -237,7 +268,6 @@ func scenario(sp spec) e1lib.Scenario {
 			}
 			rt.Log("peer-done")
 		})
-		opened := false
 		open := func() {
 			if !opened {
 				opened = true
@@ -259,6 +289,18 @@ func scenario(sp spec) e1lib.Scenario {
 		switch sp.gate {
 		case gateSlow:
 			vtime.Sleep(3 * time.Millisecond)
+			open()
+			for i := 0; i < nValid && !failed; i++ {
+				waitOne()
+			}
+		case gateOpen:
+			for i := 0; i < nValid && !failed; i++ {
+				waitOne()
+			}
+		case gateRace:
+			vtime.Sleep(3 * time.Millisecond)
+			rt.Log("release")
+			rt.Close("h:decoded", decodeGate)
 			open()
 			for i := 0; i < nValid && !failed; i++ {
 				waitOne()
@@ -465,10 +507,13 @@ func ownScenario(prefix string, sizes []int, packed bool, g gateMode) e1lib.Scen
 }
 
 // chain-sync NtN client: k pipelined RequestNext, the peer answers with k RollForward of the given sizes
-func chainSyncClient(sizes []int, awaitFirst bool) e1lib.Scenario {
+func chainSyncClient(sizes []int, awaitFirst bool, gate ...gateMode) e1lib.Scenario {
 	cfg := realCfg("chain-sync/NtN/client")
 	lim := limitOf(cfg, "CanAwait")
 	sp := spec{cfg: cfg, limit: lim, bad: -1, gate: gateSlow, local: map[int][]*s2lib.RawMsg{}}
+	if len(gate) > 0 {
+		sp.gate = gate[0]
+	}
 	for range sizes {
 		sp.local[0] = append(sp.local[0], small(chainsync.MessageTypeRequestNext))
 	}
@@ -492,6 +537,9 @@ func chainSyncClient(sizes []int, awaitFirst bool) e1lib.Scenario {
 		panic("limits of Idle and CanAwait differ: split the scenario")
 	}
 	sp.name = fmt.Sprintf("real|%s|limit=%d|%s", name, lim, sizesName(sizes))
+	if sp.gate == gateStep {
+		sp.name += "|step"
+	}
 	return scenario(sp)
 }
 
@@ -656,6 +704,32 @@ func TestC13(t *testing.T) {
 				add(ownScenario("oversize", s, packed, gateSlow), 1, mb, 60*time.Second)
 			}
 		}
+		// 5b. small messages queued ahead of big ones (the accounting must follow the queue's order)
+		for _, s := range [][]int{{2, 2, 2, 2, 2, 90, 90, 90}, {2, 2, 2, 50, 50, 50, 50}, {10, 10, 80, 80, 80}} {
+			for _, packed := range []bool{false, true} {
+				add(ownScenario("smallbig-step", s, packed, gateStep), 1, 1, 60*time.Second)
+				add(ownScenario("smallbig-slow", s, packed, gateSlow), 1, 1, 60*time.Second)
+			}
+		}
+		// 5c. a fast application: the wait for room races with the handler's completion
+		fastB := 1
+		if thorough {
+			fastB = 2
+		}
+		for _, s := range [][]int{{L, L}, {L, L, L}, {L/2 + 1, L/2 + 1, L/2 + 1}, {L / 2, L, L}} {
+			for _, packed := range []bool{false, true} {
+				add(ownScenario("fast", s, packed, gateOpen), 1, fastB, 120*time.Second)
+			}
+		}
+		raceB := 1
+		if thorough {
+			raceB = 2
+		}
+		for _, s := range [][]int{{L, L}, {L, L, L}, {L/2 + 1, L/2 + 1, L/2 + 1}, {L / 2, L, L}, {L, L / 2, L}} {
+			for _, packed := range []bool{false, true} {
+				add(ownScenario("race", s, packed, gateRace), 1, raceB, 120*time.Second)
+			}
+		}
 		// 6. the real limits of chain-sync and block-fetch
 		cs := limitOf(realCfg("chain-sync/NtN/client"), "CanAwait")
 		bf := limitOf(realCfg("block-fetch/NtN/client"), "Streaming")
@@ -668,6 +742,7 @@ func TestC13(t *testing.T) {
 			add(chainSyncClient(s, false), 0, rb, 90*time.Second)
 		}
 		add(chainSyncClient([]int{cs / 2, cs, cs / 2}, true), 0, rb, 90*time.Second)
+		add(chainSyncClient([]int{1000, 1000, 1000, cs - 3000, cs - 3000, cs - 3000}, false, gateStep), 0, rb, 90*time.Second)
 		add(chainSyncClient([]int{cs + 1}, false), 0, rb, 60*time.Second)
 		add(chainSyncClient([]int{cs / 2, cs + 1}, true), 0, rb, 60*time.Second)
 		add(chainSyncServer([]int{cs / 2, cs, cs / 2}), 0, rb, 90*time.Second)
